@@ -189,8 +189,20 @@ Fixpoint transpose_n (n : nat) (cols : list (list (list Z))) : list (list (list 
   | O => []
   | S k => map (fun c => hd [] c) cols :: transpose_n k (map (@tl _) cols)
   end.
-Definition join_row (f : fmt) (flds : list (list Z)) : list Z :=
+(* Which code is modelled.  [pinned] = /repo HEAD.  The proposed repairs switch one flag each:
+     v_crlf   = notes/C04.fix-1.diff (DelimitedBuffer._get_buffer_extractor: entry ends taken before the CR adjustment)
+     v_samtab = notes/C04.fix-2.diff (SAMBuffer.join_fields: no separator before an empty 'extra' field)
+   THE SWITCH is the single definition [current] below. *)
+Record variant := { v_crlf : bool; v_samtab : bool }.
+Definition pinned : variant := {| v_crlf := false; v_samtab := false |}.
+Definition repaired : variant := {| v_crlf := true; v_samtab := true |}.
+Definition current : variant := pinned.
+
+Definition drop_empty_last (flds : list (list Z)) : list (list Z) :=
+  match rev flds with [] :: r => rev r | _ => flds end.
+Definition join_row (v : variant) (f : fmt) (flds : list (list Z)) : list Z :=
   match f with
+  | FSam => intercalate [TAB] (if v_samtab v then drop_empty_last flds else flds) ++ [LF]
   | FFastq => [64] ++ nth 0 flds [] ++ [LF] ++ nth 1 flds [] ++ [LF] ++ [43] ++ [LF] ++ nth 2 flds [] ++ [LF]
   | FFasta => [62] ++ nth 0 flds [] ++ [LF] ++ nth 1 flds [] ++ [LF]
   | _ => intercalate [TAB] flds ++ [LF]
@@ -343,15 +355,15 @@ Fixpoint run (f : fmt) (src : state) (p : prog) : option state :=
   end.
 
 (* get_buffer + writer: bytes after the header *)
-Definition write (f : fmt) (s : state) : option (list Z) :=
+Definition write (v : variant) (f : fmt) (s : state) : option (list Z) :=
   match s with
   | SLazy x [] => Some (x_data (contiguous x))
   | SLazy x sv =>
       match f with
       | FBam => None                                       (* supports_modified_write = False *)
-      | _ => Some (concat (map (join_row f) (lazy_rows f x sv)))
+      | _ => Some (concat (map (join_row v f) (lazy_rows f x sv)))
       end
-  | SEager rows => Some (concat (map (join_row f) rows))
+  | SEager rows => Some (concat (map (join_row v f) rows))
   end.
 
 (* ---- building the extractor from the raw bytes ---- *)
@@ -395,7 +407,6 @@ Definition from_delimited_gen (fixed : bool) (data : list Z) : option ext :=
       end
   end.
 Definition from_delimited := from_delimited_gen false.
-Definition from_delimited_fixed := from_delimited_gen true.
 
 (* SAMBuffer: ragged rows (11 common columns + any number of tag columns) *)
 Fixpoint split_counts (counts : list Z) (l : list Z) : list (list Z) :=
@@ -477,27 +488,95 @@ Definition from_bam (data : list Z) : option ext :=
 Definition eager_rows (f : fmt) (x : ext) : list (list (list Z)) :=
   map (canon_row f) (lazy_rows f x []).
 
-Definition read (f : fmt) (data : list Z) : option state :=
+Definition read (v : variant) (f : fmt) (data : list Z) : option state :=
   match f with
-  | FDelim _ | FVcf _ => option_map (fun x => SLazy x []) (from_delimited data)
+  | FDelim _ | FVcf _ => option_map (fun x => SLazy x []) (from_delimited_gen (v_crlf v) data)
   | FSam => option_map (fun x => SLazy x []) (from_sam data)
   | FFastq => option_map (fun x => SLazy x []) (from_oneline 4 [1; 0; 0; 0] data)
   | FFasta => option_map (fun x => SLazy x []) (from_oneline 2 [1; 0] data)
   | FBam => option_map (fun x => SLazy x []) (from_bam data)
-  | FGtf => option_map (fun x => SEager (eager_rows f x)) (from_delimited data)
-  end.
-(* variant with the proposed repair of the delimited extractor *)
-Definition read_fixed (f : fmt) (data : list Z) : option state :=
-  match f with
-  | FDelim _ | FVcf _ => option_map (fun x => SLazy x []) (from_delimited_fixed data)
-  | _ => read f data
+  | FGtf => option_map (fun x => SEager (eager_rows f x)) (from_delimited_gen (v_crlf v) data)
   end.
 
 (* whole pipeline: file body -> program -> written body *)
-Definition model_out_with (rd : fmt -> list Z -> option state) (f : fmt) (data : list Z) (p : prog) : option (list Z) :=
-  match rd f data with
+Definition model_out_v (v : variant) (f : fmt) (data : list Z) (p : prog) : option (list Z) :=
+  match read v f data with
   | None => None
-  | Some src => match run f src p with None => None | Some s => write f s end
+  | Some src => match run f src p with None => None | Some s => write v f s end
   end.
-(* THE SWITCH: [read] = code at /repo HEAD; [read_fixed] = code with notes/C04.fix-1.diff applied *)
-Definition model_out := model_out_with read.
+Definition model_out := model_out_v current.
+
+(* ================================================================== (a') SPEC at the level of the abstraction
+   What a program means for the rows, independently of any offsets: selections take rows, concatenations
+   append them, replacements only touch the replaced column. *)
+Fixpoint aeval (v0 : list arow) (p : prog) : list arow :=
+  match p with
+  | PSrc => v0
+  | PIdx sel p => takeA dummy_arow (aeval v0 p) sel
+  | PCat ps => concat (map (aeval v0) ps)
+  | PRepl _ _ p => aeval v0 p
+  | PTouch p => aeval v0 p
+  end.
+Fixpoint sv_eval (p : prog) : setv :=
+  match p with
+  | PSrc => []
+  | PIdx sel p => map (fun kc => (fst kc, takeA [] (snd kc) sel)) (sv_eval p)
+  | PCat _ => []
+  | PRepl j txt p => sv_set (sv_eval p) j txt
+  | PTouch p => sv_eval p
+  end.
+Fixpoint cat_free (p : prog) : bool :=
+  match p with
+  | PSrc => true | PIdx _ p => cat_free p | PRepl _ _ p => cat_free p | PTouch p => cat_free p | PCat _ => false
+  end.
+Fixpoint repl_free (p : prog) : bool :=
+  match p with
+  | PSrc => true | PIdx _ p => repl_free p | PRepl _ _ _ => false | PTouch p => repl_free p
+  | PCat ps => forallb repl_free ps
+  end.
+(* row k of a modified write: field i is the replaced text if field i was replaced, else the text of
+   field i read off the record's own original bytes *)
+Definition render_row (vr : variant) (f : fmt) (v : list arow) (sv : setv) (k : nat) : list Z :=
+  join_row vr f (map (fun i => match sv_get sv i with
+                            | Some c => nth k c []
+                            | None => a_field_text f i (nth k v dummy_arow)
+                            end) (arange (n_fields f))).
+Definition render_rows (vr : variant) (f : fmt) (v : list arow) (sv : setv) : list (list Z) :=
+  map (render_row vr f v sv) (seq 0 (length v)).
+Definition width_gt (k : nat) (v : list arow) : Prop := Forall (fun a => (k < length (a_rel a))%nat) v.
+Definition width_ok (f : fmt) (v : list arow) : Prop :=
+  match f with FVcf n => 8 < n -> width_gt 8 v | FSam => width_gt 0 v | _ => True end.
+
+(* decidable versions of the well-formedness conditions (reflected in Proofs/C04.v) *)
+Definition row_ok_b (dlen : Z) (r : xrow) : bool :=
+  (0 <=? r_s r) && (r_s r <=? r_e r) && (r_e r <=? dlen) && Nat.eqb (length (r_fs r)) (length (r_fl r)) &&
+  forallb (fun al => (r_s r <=? fst al) && (0 <=? snd al) && (fst al + snd al + 1 <=? r_e r)) (combine (r_fs r) (r_fl r)).
+Definition inv_b (x : ext) : bool :=
+  Nat.eqb (length (x_ee x)) (length (x_es x)) && Nat.eqb (length (x_fs x)) (length (x_es x)) &&
+  Nat.eqb (length (x_fl x)) (length (x_es x)) &&
+  forallb (row_ok_b (len (x_data x))) (rows x) &&
+  (negb (x_contig x) || zlist_eqb (x_data x) (concat (map a_rec (view x)))).
+Definition width_b (f : fmt) (v : list arow) : bool :=
+  match f with
+  | FVcf n => negb (8 <? n) || forallb (fun a => Nat.ltb 8 (length (a_rel a))) v
+  | FSam => forallb (fun a => Nat.ltb 0 (length (a_rel a))) v
+  | _ => true
+  end.
+
+(* the abstraction a record of the generator is expected to have: its raw bytes and where its columns lie *)
+Fixpoint col_offsets (pos : Z) (cols : list (list Z)) : list (Z * Z) :=
+  match cols with [] => [] | c :: r => (pos, len c) :: col_offsets (pos + len c + 1) r end.
+Definition gview (f : fmt) (r : grec) : arow :=
+  let cols := g_cols r in let e := len (g_eol r) in
+  {| a_rec := g_raw f r;
+     a_rel := match f with
+              | FSam => firstn 11 (col_offsets 0 cols)
+              | FFastq => let n := len (nth 0 cols []) in let s := len (nth 1 cols []) in let p := len (nth 2 cols []) in
+                          [(1, n); (1 + n + e, s); (1 + n + e + s + e, 1 + p); (1 + n + e + s + e + 1 + p + e, len (nth 3 cols []))]
+              | FFasta => let n := len (nth 0 cols []) in [(1, n); (1 + n + e, len (nth 1 cols []))]
+              | FBam => []
+              | _ => col_offsets 0 cols
+              end |}.
+Definition arow_eqb (a b : arow) : bool :=
+  zlist_eqb (a_rec a) (a_rec b) &&
+  list_eqb (fun p q => (fst p =? fst q) && (snd p =? snd q)) (a_rel a) (a_rel b).
